@@ -120,15 +120,14 @@ PROPS = {
             "Astral.C16.obs_set_inv", "Astral.C16.observer_inv", "Astral.C16.coords_set_inv",
             "Astral.C16.coords_inv", "Astral.C16.dms_number_identity", "Astral.C16.dms_number_clamped",
             "Astral.C16.dmsMatch_value", "Astral.C16.recognise_deg_min_sec",
-            "Astral.C16.recognise_deg_min", "Astral.C16.recognise_deg", "Astral.C16.reject",
+            "Astral.C16.recognise_deg_min", "Astral.C16.recognise_deg_sec", "Astral.C16.optField_wrong_mark", "Astral.C16.recognise_deg", "Astral.C16.reject",
             "Astral.C16.accept_cases", "Astral.C16.recognise_none_of_no_digit",
         ],
         "groups": [G("corr_geo", "dms", 4000, 60000,
                      exhaustive_thorough=["dms_exhaustive", "dms_short_strings"],
                      exhaustive_quick=["dms_short_strings"]),
                    G("corr_geo", "setters", 3000, 60000)],
-        "unproved": ["degrees + seconds without minutes (the fourth field shape) is covered by the "
-                     "recogniser correspondence, not by its own theorem"],
+        "unproved": [],
         "assumes": ["recogniser ≡ re.match and parseNumeral ≡ float() on the modelled alphabet"],
     },
     "C17": {
